@@ -3,6 +3,7 @@
 
 #include <pika/executors/std_thread_scheduler.hpp>
 #include <pika/runtime/thread_pool_helpers.hpp>
+#include <pika/semaphore.hpp>
 
 #include <memory>
 
@@ -46,6 +47,17 @@ namespace {
     int g_submit_depth[256];    // per simulated thread: >0 while inside a submitting call
     int g_records = 0, g_expected_records = 0;
     std::vector<int> g_worker_tids;    // simulated thread ids seen running pika tasks
+    std::vector<std::thread> g_wakers;  // OS threads that wake suspended hinted tasks
+
+    // a hinted task that suspends between its phases: the waker releases one permit per phase, at a
+    // drawn distance after the task announced that it is about to block (so that the wake-up can hit
+    // the window in which the task is registered as a waiter but still active)
+    struct Susp
+    {
+        pika::counting_semaphore<> sem{0};
+        int about_to_block = 0;
+        int phases_done = 0;
+    };
 
     int pool_index_here()
     {
@@ -154,7 +166,11 @@ namespace {
             g_expected_records++;
             auto sh = ex::with_hint(sched_of(a), pika::execution::thread_schedule_hint((std::int16_t) hint));
             SubmitScope s;
-            ex::start_detached(ex::schedule(sh) | ex::then([idx, a, hint, must_stay, yields] {
+            bool suspends = (op.v[6] & 4) != 0;
+            std::shared_ptr<Susp> sp = suspends ? std::make_shared<Susp>() : nullptr;
+            int waker_os = (int) (op.v[7] & 1), waker_delay = (int) ((op.v[7] >> 1) & 3);
+            int wpool = b;
+            ex::start_detached(ex::schedule(sh) | ex::then([idx, a, hint, must_stay, yields, sp, waker_os, waker_delay, wpool] {
                 record(idx, a, "hinted");
                 for (int y = 0; y <= yields; y++)
                 {
@@ -163,11 +179,40 @@ namespace {
                         VH_CHECK((int) pika::get_local_worker_thread_num() == hint, "C10.hint_not_honoured",
                             "op %d: phase %d of a task hinted to worker %d of static pool %s runs on worker %zu", idx, y,
                             hint, pools[(size_t) a].name.c_str(), pika::get_local_worker_thread_num());
-                        probe("hinted_phase_on_static_pool");
+                        probe(sp ? "hinted_phase_after_suspension_on_static_pool" : "hinted_phase_on_static_pool");
                     }
-                    if (y < yields) pika::this_thread::yield();
+                    if (y < yields)
+                    {
+                        if (sp)
+                        {
+                            if (!waker_os)
+                            {
+                                // the waker is a task on (possibly) another worker or pool; it does not poll
+                                // (a polling task can starve this one: C01's known finding)
+                                ex::execute(sched_of(wpool), [sp, waker_delay] {
+                                    for (int d = 0; d < waker_delay; d++) pika::this_thread::yield();
+                                    sp->sem.release();
+                                });
+                            }
+                            sp->about_to_block = y + 1;
+                            sp->sem.acquire();
+                            sp->phases_done = y + 1;
+                            probe("hinted_task_suspended");
+                        }
+                        else
+                            pika::this_thread::yield();
+                    }
                 }
             }));
+            if (sp && yields > 0 && waker_os)
+                g_wakers.emplace_back([sp, yields, waker_delay] {
+                    for (int y = 1; y <= yields; y++)
+                    {
+                        while (sp->about_to_block < y) std::this_thread::yield();
+                        for (int d = 0; d < waker_delay; d++) std::this_thread::yield();
+                        sp->sem.release();
+                    }
+                });
             break;
         }
         case K_STD_THREAD:
@@ -217,7 +262,8 @@ namespace {
                 op.v[3] = (int64_t) r.below(64);
                 op.v[4] = r.chance(2, 3) ? 0 : (int64_t) r.below(3);
                 op.v[5] = (int64_t) r.below(3);    // submitter: 0 main, 1 task, 2 OS thread
-                op.v[6] = (int64_t) r.below(4);
+                op.v[6] = (int64_t) r.below(8);
+                op.v[7] = (int64_t) r.below(8);
                 p.push_back(op);
             }
             ctx.program = p;
@@ -270,6 +316,8 @@ namespace {
         }
         for (auto& t : os) t.join();
         while (g_records < g_expected_records) main_pause(3000000);
+        sim_quiesce(3000000);
+        for (auto& t : g_wakers) t.join();
         sim_quiesce(3000000);
         pika::wait();
         // std_thread_scheduler work is outside the runtime: wait for it
